@@ -59,6 +59,10 @@ def main(argv=None):
         if hasattr(mod, "replay"):
             return mod.replay(rec)
         return 0
+    import glob
+    rdir = os.environ.get("PYVC_REPLAY_DIR") or os.path.join(VERIF, "replays")
+    for old in glob.glob(os.path.join(rdir, f"{prop}-*.json")):
+        os.remove(old)
     rep = Report(prop)
     level = "proof"
     meta = {}
@@ -67,6 +71,7 @@ def main(argv=None):
         level = getattr(mod, "LEVEL", "proof")
         known = load_known(prop)
         meta = mod.build(rep, tier=tier, seed=seed, known=known) or {}
+        rep.known_by_id = {k["obligation"]: k for k in known if k.get("obligation")}
     except Exception as ex:
         rep.errors.append(f"property module crashed: {ex!r}\n{traceback.format_exc()}")
     code = finish(rep, prop, tier, seed, level, meta, t0, verbose=a.verbose)
@@ -78,7 +83,14 @@ def finish(rep, prop, tier, seed, level, meta, t0, verbose=False):
     violations = []
     undecided = []
     unsound = []
+    known_by_id = getattr(rep, "known_by_id", {})
     for o in rep.obls:
+        if o.status == "refuted" and o.id in known_by_id and (o.replay or {}).get("confirmed"):
+            # a listed finding, re-confirmed on this run by its specific failing input
+            kf = known_by_id[o.id]
+            rep.known_printed.append(f"{kf['what']} [obligation {o.id}]")
+            o.status = "known-finding"
+            continue
         if o.status == "refuted":
             r = o.replay
             rec = {"property": prop, "obligation": o.id, "kind": o.kind, "clause": o.desc, "solver": o.backend,
@@ -98,7 +110,7 @@ def finish(rep, prop, tier, seed, level, meta, t0, verbose=False):
         print(f"KNOWN-FINDING: property={prop} {kf}")
     for o, path, tail in violations:
         print(f"VIOLATION property={prop} replay={path} obligation={o.id}{tail}")
-    deductive = [o for o in rep.obls if o.kind != "B"]
+    deductive = [o for o in rep.obls if o.kind != "B" and o.status != "known-finding"]
     discharged = [o for o in deductive if o.status == "discharged"]
     by_kind = {}
     by_backend = {}
